@@ -201,7 +201,7 @@ def run_view_mode(res, scratch, mode, entries):
         gaf += ".gz"
         vi.write_gaf(gaf, text, ("bgzip64k",))
     else:
-        fw.write_text(gaf, text)
+        fw.write_text(gaf, text[:-1] if len(text) % 2 else text)  # about every other plain input file ends without a newline
     outp = os.path.join(scratch, "out.gaf")
     if mode == "view-n":
         o, ind = vi.run_index(gaf, gfa)
@@ -248,7 +248,8 @@ def run_realign_mode(res, scratch, mode, entries):
 
     d, recs = make_realign_inputs(scratch, mode, entries)
     gaf = os.path.join(d, "in.gaf")
-    fw.write_text(gaf, "".join(r.line() + "\n" for r in recs))
+    text = "".join(r.line() + "\n" for r in recs)
+    fw.write_text(gaf, text[:-1] if len(text) % 2 else text)
     outp = os.path.join(d, "out.gaf")
     out = fw.guarded(R.run_realign, gaf=gaf, graph=os.path.join(d, "g.gfa"), fasta=os.path.join(d, "r.fa"), output=outp, cores=1, _trigger_s=600)
     if out.kind != "ok":
@@ -293,6 +294,10 @@ def run_shard(spec, tier, scratch):
     res = fw.ShardResult().begin(spec, tier)
     res.next_call()
     entries = build_records(spec["mode"], tier, spec)
+    if spec["shard"] == 0 and spec["mode"].startswith("view") and tier == "quick":
+        # one call that re-emits several thousand records (every record of this mode in one file)
+        entries = build_records(spec["mode"], tier, {"shard": 0, "of": 1})
+        res.count("calls_with_thousands_of_records")
     if spec["shard"] == 0 and spec["mode"].startswith("view"):
         # records longer than 64 KiB, with fields before and after the long one
         base = max(n for n, o in entries) + 1 if entries else 1
